@@ -60,7 +60,7 @@ Section Unfold.
   Proof. destruct v; intros H; try discriminate; reflexivity. Qed.
 
   Lemma cv_named v n : is_var v = false ->
-    check_value S vars v (TNamed n) = check_named S (check_value S vars) v (TNamed n) n.
+    check_value S vars v (TNamed n) = check_named S vars (check_value S vars) v (TNamed n) n.
   Proof. destruct v; intros H; try discriminate; reflexivity. Qed.
 
   Lemma lo_var n p t : lit_ok S (VVar n p) t = true.
@@ -80,7 +80,7 @@ Section Unfold.
   Proof. destruct v; intros H; try discriminate; reflexivity. Qed.
 End Unfold.
 
-(** * Counting: "seen < number of supplied" detects every undefined or repeated key *)
+(** * Counting: "seen < number of supplied" detects every undefined key *)
 
 Lemma nodup_str_NoDup l : nodup_str l = true <-> NoDup l.
 Proof.
@@ -92,24 +92,60 @@ Proof.
       destruct (mem x l) eqn:E; [|reflexivity]. apply mem_In in E. contradiction.
 Qed.
 
-Lemma count_incl (names keys : list str) :
-  NoDup names ->
-  length keys <= length (filter (fun n => mem n keys) names) ->
-  (forall k, In k keys -> In k names) /\ NoDup keys.
-Proof.
-  intros Hnd Hlen. set (N := filter (fun n => mem n keys) names) in *.
-  assert (HN : NoDup N) by (apply NoDup_filter, Hnd).
-  assert (Hincl : incl N keys).
-  { intros x Hx. apply filter_In in Hx as [_ Hx]. apply mem_In, Hx. }
-  split.
-  - intros k Hk. pose proof (NoDup_length_incl HN Hlen Hincl k Hk) as Hin.
-    apply filter_In in Hin as [Hin _]. exact Hin.
-  - exact (NoDup_incl_NoDup HN Hlen Hincl).
-Qed.
-
 Lemma filter_map_length {A B} (f : A -> B) (p : B -> bool) l :
   length (filter p (map f l)) = length (filter (fun x => p (f x)) l).
 Proof. induction l as [|x l IH]; cbn; [reflexivity|]. destruct (p (f x)); cbn; auto. Qed.
+
+
+Definition count_key (n : str) (ks : list str) : nat := length (filter (str_eqb n) ks).
+Fixpoint sumc (names ks : list str) : nat :=
+  match names with [] => 0 | n :: r => count_key n ks + sumc r ks end.
+
+Lemma sumc_cons names k ks :
+  NoDup names -> sumc names (k :: ks) = (if mem k names then 1 else 0) + sumc names ks.
+Proof.
+  induction names as [|n ns IH]; intros Hnd; [reflexivity|].
+  inversion Hnd as [|? ? Hn Hns]; subst. cbn [sumc]. rewrite (IH Hns).
+  change (count_key n (k :: ks)) with (length (if str_eqb n k then k :: filter (str_eqb n) ks else filter (str_eqb n) ks)).
+  fold (count_key n ks). rewrite mem_cons, (str_eqb_sym k n).
+  destruct (str_eqb_spec n k) as [->|E]; cbn [orb length].
+  - assert (Hm : mem k ns = false) by (destruct (mem k ns) eqn:Em; [apply mem_In in Em; contradiction | reflexivity]).
+    rewrite Hm. fold (count_key k ks). lia.
+  - fold (count_key n ks). lia.
+Qed.
+
+Lemma sumc_le names ks : NoDup names -> sumc names ks <= length ks.
+Proof.
+  intros Hnd. induction ks as [|k ks IH].
+  - clear Hnd. induction names as [|n ns IHn]; [reflexivity|]. cbn [sumc]. unfold count_key at 1. cbn [filter length] in *. lia.
+  - rewrite (sumc_cons names k ks Hnd). cbn [length]. destruct (mem k names); lia.
+Qed.
+
+(** every supplied key is defined when the definitions matched at least as many entries as were supplied *)
+Lemma sumc_all_defined names ks :
+  NoDup names -> length ks <= sumc names ks -> forall k, In k ks -> In k names.
+Proof.
+  intros Hnd. induction ks as [|k0 ks IH]; intros Hlen k Hk; [contradiction|].
+  rewrite (sumc_cons names k0 ks Hnd) in Hlen. cbn [length] in Hlen.
+  pose proof (sumc_le names ks Hnd) as Hle.
+  destruct (mem k0 names) eqn:Em; [|lia].
+  destruct Hk as [<-|Hk]; [apply mem_In, Em | apply IH; [lia | exact Hk]].
+Qed.
+
+Lemma sumc_defined_ge names ks :
+  NoDup names -> (forall k, In k ks -> In k names) -> length ks <= sumc names ks.
+Proof.
+  intros Hnd. induction ks as [|k0 ks IH]; intros H; [cbn; lia|].
+  rewrite (sumc_cons names k0 ks Hnd). cbn [length].
+  assert (Em : mem k0 names = true) by (apply mem_In, H; left; reflexivity). rewrite Em.
+  specialize (IH (fun k Hk => H k (or_intror Hk))). lia.
+Qed.
+
+Lemma concat_nil_inv {A} (l : list (list A)) : concat l = [] -> forall x, In x l -> x = [].
+Proof.
+  induction l as [|a l IH]; cbn; intros H x Hx; [contradiction|].
+  apply app_nil_inv in H as [Ha Hl]. destruct Hx as [<-|Hx]; auto.
+Qed.
 
 (** * The loop over the expected fields of an input object *)
 Section IoLoop.
@@ -118,25 +154,31 @@ Section IoLoop.
 
   Definition keys : list str := map (fun kv => iname (fst kv)) fs.
 
-  Lemma find_val_none {A} (f : value -> A) name :
-    find_val f name fs = None <-> mem name keys = false.
+  Lemma filter_vals_length {A} (f : value -> A) name : length (filter_vals f name fs) = count_key name keys.
   Proof.
-    unfold keys. induction fs as [|[k v] r IH]; [cbn; tauto|].
-    cbn [find_val map fst]. rewrite mem_cons.
-    destruct (str_eqb name (iname k)); cbn [orb]; [split; discriminate | exact IH].
+    unfold keys, count_key. induction fs as [|[k v] r IH]; [reflexivity|].
+    cbn [filter_vals map fst filter]. destruct (str_eqb name (iname k)); cbn [length]; rewrite IH; reflexivity.
   Qed.
 
-  Lemma find_val_some_first {A} (f : value -> A) name y :
-    find_val f name fs = Some y ->
-    exists k v, find (fun kv => str_eqb name (iname (fst kv))) fs = Some (k, v) /\ y = f v.
+  Lemma filter_vals_In {A} (f : value -> A) name y :
+    In y (filter_vals f name fs) <-> exists k v, In (k, v) fs /\ name = iname k /\ y = f v.
   Proof.
-    induction fs as [|[k v] r IH]; cbn; [discriminate|].
-    destruct (str_eqb name (iname k)); [|exact IH].
-    intros E. injection E as <-. exists k, v. split; reflexivity.
+    induction fs as [|[k v] r IH]; cbn [filter_vals]; [split; [contradiction | intros [? [? [[] _]]]]|].
+    destruct (str_eqb_spec name (iname k)) as [E|E]; cbn [In]; rewrite IH; split.
+    - intros [<-|[k' [v' [H1 H2]]]]; [exists k, v; auto | exists k', v'; auto].
+    - intros [k' [v' [[H|H] [H2 H3]]]]; [injection H as <- <-; left; auto | right; eauto].
+    - intros [k' [v' [H1 H2]]]. exists k', v'. auto.
+    - intros [k' [v' [[H|H] [H2 H3]]]]; [injection H as <- <-; contradiction | eauto].
   Qed.
 
-  Definition ef_errs (ef : inputvaldef) : list err :=
-    match find_val (fun fv => cv fv (iv_type ef)) (iname (iv_name ef)) fs with Some es => es | None => [] end.
+  Lemma count_key_zero name : count_key name keys = 0 <-> mem name keys = false.
+  Proof.
+    unfold count_key, keys. induction fs as [|[k v] r IH]; [cbn; tauto|].
+    cbn [map fst filter]. rewrite mem_cons. destruct (str_eqb name (iname k)); cbn [orb length]; [split; discriminate | exact IH].
+  Qed.
+
+  Definition ef_vals (ef : inputvaldef) : list (list err) :=
+    filter_vals (fun fv => cv fv (loc_type ef fv)) (iname (iv_name ef)) fs.
   Definition ef_ok (ef : inputvaldef) : bool :=
     mem (iname (iv_name ef)) keys || negb (required_input ef).
 
@@ -146,25 +188,28 @@ Section IoLoop.
 
   Lemma io_fold : forall fields st,
     let st' := fold_left (io_step cv fs) fields st in
-    io_errs st' = io_errs st ++ flat_map ef_errs fields
+    io_errs st' = io_errs st ++ flat_map (fun ef => concat (ef_vals ef)) fields
     /\ io_res st' = io_res st && forallb ef_ok fields
-    /\ io_seen st' = io_seen st + length (filter (fun ef => mem (iname (iv_name ef)) keys) fields).
+    /\ io_seen st' = io_seen st + sumc (map (fun ef => iname (iv_name ef)) fields) keys.
   Proof.
-    induction fields as [|ef fields IH]; intros st; cbn [fold_left flat_map forallb filter].
+    induction fields as [|ef fields IH]; intros st; cbn [fold_left flat_map forallb map].
     - cbn. rewrite app_nil_r, andb_true_r, Nat.add_0_r. auto.
     - specialize (IH (io_step cv fs st ef)). cbn zeta in IH. destruct IH as [IH1 [IH2 IH3]].
-      cbn zeta. rewrite IH1, IH2, IH3. unfold io_step, ef_errs, ef_ok.
-      destruct (find_val (fun fv => cv fv (iv_type ef)) (iname (iv_name ef)) fs) as [es|] eqn:Ef.
-      + assert (Hm : mem (iname (iv_name ef)) keys = true).
-        { destruct (mem (iname (iv_name ef)) keys) eqn:E; [reflexivity|].
-          apply find_val_none with (f := fun fv => cv fv (iv_type ef)) in E. congruence. }
-        rewrite Hm. cbn [io_errs io_res io_seen orb andb length]. rewrite app_assoc.
-        split; [reflexivity|]. split; [reflexivity | lia].
-      + apply find_val_none in Ef. rewrite Ef. cbn [orb]. rewrite <- required_input_eq.
+      cbn zeta. rewrite IH1, IH2, IH3. cbn [sumc].
+      unfold io_step, ef_ok. fold (ef_vals ef).
+      pose proof (filter_vals_length (fun fv => cv fv (loc_type ef fv)) (iname (iv_name ef))) as Hlen. fold (ef_vals ef) in Hlen.
+      destruct (ef_vals ef) as [|r0 rs] eqn:Ev.
+      + cbn [length] in Hlen. symmetry in Hlen. pose proof (proj1 (count_key_zero _) Hlen) as Hm.
+        rewrite Hm, Hlen. cbn [orb concat app]. rewrite <- required_input_eq.
         destruct (required_input ef); cbn [io_errs io_res io_seen negb andb app];
-          (split; [reflexivity|]); (split; [|reflexivity]).
+          (split; [reflexivity|]); (split; [|lia]).
         * rewrite andb_false_r. reflexivity.
         * reflexivity.
+      + assert (Hm : mem (iname (iv_name ef)) keys = true).
+        { destruct (mem (iname (iv_name ef)) keys) eqn:E; [reflexivity|].
+          apply count_key_zero in E. rewrite E in Hlen. discriminate. }
+        rewrite Hm. cbn [io_errs io_res io_seen orb andb]. rewrite <- Hlen, app_assoc.
+        split; [reflexivity|]. split; [reflexivity | lia].
   Qed.
 End IoLoop.
 
@@ -220,6 +265,21 @@ Proof.
   try congruence; destruct v; cbn in *; rewrite <- ?parse_i32_spec in *; congruence.
 Qed.
 
+
+Lemma builtin_agree name : is_builtin_scalar name = sp_builtin_scalar name.
+Proof.
+  unfold is_builtin_scalar, sp_builtin_scalar. destruct s_consts as [-> [-> [-> [-> ->]]]].
+  destruct (str_eqb name str_Boolean), (str_eqb name str_Int), (str_eqb name str_Float), (str_eqb name str_String),
+           (str_eqb name str_ID); reflexivity.
+Qed.
+
+Lemma custom_scalar_ok name v : is_builtin_scalar name = false -> builtin_scalar_ok name v = true.
+Proof.
+  unfold is_builtin_scalar, builtin_scalar_ok. destruct s_consts as [-> [-> [-> [-> ->]]]]. intros H.
+  destruct (str_eqb name str_Boolean), (str_eqb name str_Int), (str_eqb name str_Float), (str_eqb name str_String),
+           (str_eqb name str_ID); try discriminate H; reflexivity.
+Qed.
+
 (** * check_value is sound for "Values of Correct Type" and "All Variable Usages Are Allowed" *)
 
 Lemma Forall_flat_map {A B} (P : B -> Prop) (f : A -> list B) l :
@@ -259,7 +319,7 @@ Proof.
   apply IH. intros k' v' Hin. apply H. right. exact Hin.
 Qed.
 
-(** schema_wf gives distinct names for the fields of every input object [get_type] returns *)
+(** schema_wf gives distinct names and grammar-shaped types for the fields of every input object [get_type] returns *)
 Lemma get_type_In S n t : get_type S n = Some t -> In (TSType t) S.
 Proof.
   induction S as [|d S IH]; cbn; [discriminate|].
@@ -269,14 +329,32 @@ Proof.
   - intros H. right. apply IH, H.
 Qed.
 
-Lemma wf_input S n d p name dirs fields kw :
+Lemma names_distinct_parts l : names_distinct l = true ->
+  NoDup (map (fun d => iname (iv_name d)) l) /\ forall d, In d l -> ty_wf (iv_type d) = true.
+Proof.
+  unfold names_distinct. intros H. apply andb_true_iff in H as [H1 H2]. split; [apply nodup_str_NoDup, H1|].
+  intros d Hd. rewrite forallb_forall in H2. apply H2, Hd.
+Qed.
+
+Lemma wf_input_both S n d p name dirs fields kw :
   schema_wf S = true -> get_type S n = Some (TDInput d p name dirs fields kw) ->
-  NoDup (map (fun d => iname (iv_name d)) fields).
+  NoDup (map (fun d => iname (iv_name d)) fields) /\ forall x, In x fields -> ty_wf (iv_type x) = true.
 Proof.
   intros Hwf Hg. apply get_type_In in Hg. unfold schema_wf in Hwf.
   rewrite !andb_true_iff in Hwf. destruct Hwf as [[Hwf _] _].
-  rewrite forallb_forall in Hwf. specialize (Hwf _ Hg). cbn in Hwf.
-  apply nodup_str_NoDup, Hwf.
+  rewrite forallb_forall in Hwf. specialize (Hwf _ Hg). cbn beta iota in Hwf. apply names_distinct_parts, Hwf.
+Qed.
+
+Lemma wf_input S n d p name dirs fields kw :
+  schema_wf S = true -> get_type S n = Some (TDInput d p name dirs fields kw) ->
+  NoDup (map (fun d => iname (iv_name d)) fields).
+Proof. intros Hwf Hg. apply (wf_input_both S n d p name dirs fields kw Hwf Hg). Qed.
+
+Lemma Forall_flat_map_inv' {A B} (P : B -> Prop) (f : A -> list B) l :
+  Forall P (flat_map f l) -> forall x, In x l -> Forall P (f x).
+Proof.
+  induction l as [|a l IH]; cbn; intros H x Hx; [contradiction|].
+  apply Forall_app in H as [Ha Hl]. destruct Hx as [<-|Hx]; auto.
 Qed.
 
 Section ValueSound.
@@ -317,6 +395,49 @@ Section ValueSound.
       rewrite type_compat_spec in E. destruct (vd_type vd); exact E.
   Qed.
 
+  Lemma loc_type_nonvar d v : is_var v = false -> loc_type d v = iv_type d.
+  Proof. unfold loc_type. destruct (iv_type d), v; intros H; try discriminate H; reflexivity. Qed.
+
+  (** expected_type_of_location: a variable given directly for a defaulted non-null position *)
+  Lemma var_loc_sound d n p :
+    ty_wf (iv_type d) = true ->
+    check_variable_value vars n p (loc_type d (VVar n p)) = [] ->
+    use_ok (mkUse n (Some (iv_type d)) (has_default d)).
+  Proof.
+    intros Hty H. unfold loc_type in H. destruct (iv_type d) as [tn|inner|tp ti] eqn:Et.
+    - apply (check_variable_value_sound n p _ _ H).
+    - unfold has_default. destruct (iv_default d) as [dv|]; [|apply (check_variable_value_sound n p _ _ H)].
+      assert (Hinner : ty_is_nonnull inner = false) by (destruct inner; [reflexivity | discriminate Hty | reflexivity]).
+      unfold check_variable_value in H. unfold use_ok. cbn [u_name u_type u_loc_default].
+      destruct (get_variable_definition vars n) as [vd|]; [|discriminate].
+      exists vd. split; [reflexivity|]. intros t' E. injection E as <-.
+      assert (Hc : type_compat (vd_type vd) inner = true).
+      { destruct inner; try discriminate Hinner;
+          (match type of H with (if negb ?c then _ else _) = _ => destruct c; [reflexivity | discriminate] end). }
+      unfold variable_usage_allowed. rewrite orb_true_r.
+      destruct (vd_type vd) as [vn|vi|vp vi] eqn:Ev.
+      + rewrite <- type_compat_spec. exact Hc.
+      + cbn [types_compatible]. rewrite <- type_compat_spec.
+        destruct inner; try discriminate Hinner; exact Hc.
+      + rewrite <- type_compat_spec. exact Hc.
+    - apply (check_variable_value_sound n p _ _ H).
+  Qed.
+
+  (** check_variables_in_value: every variable inside the literal is defined *)
+  Lemma cviv_sound : forall v, check_variables_in_value vars v = [] -> Forall use_ok (var_uses true S v None false).
+  Proof.
+    induction v as [n p|p l|p l|p l|p b|p|p l|p vs IHvs|p fs IHfs] using value_ind'; intros H; try constructor.
+    - cbn [check_variables_in_value] in H. destruct (get_variable_definition vars n) as [vd|] eqn:E; [|discriminate].
+      exists vd. split; [exact E | intros t Ht; discriminate Ht].
+    - constructor.
+    - cbn [check_variables_in_value] in H. cbn [var_uses orb]. apply Forall_flat_map. intros e He.
+      rewrite Forall_forall in IHvs. apply (IHvs e He). apply (flat_map_nil _ _ H e He).
+    - cbn [check_variables_in_value] in H. cbn [var_uses orb]. revert H.
+      induction fs as [|[k fv] r IHr]; intros H; [constructor|].
+      inversion IHfs as [|? ? Hk Hr]; subst. apply app_nil_inv in H as [H1 H2].
+      cbn [find]. apply Forall_app. split; [apply Hk, H1 | apply (IHr Hr H2)].
+  Qed.
+
   (** the named arm *)
   Lemma named_sound v n :
     is_var v = false ->
@@ -324,7 +445,7 @@ Section ValueSound.
     | VObject _ fs => Forall (fun kv => forall t, check_value S vars (snd kv) t = [] -> lit_ok S (snd kv) t = true) fs
     | _ => True
     end ->
-    check_named S (check_value S vars) v (TNamed n) n = [] ->
+    check_named S vars (check_value S vars) v (TNamed n) n = [] ->
     lit_ok S v (TNamed n) = true.
   Proof.
     intros Hv IH H. rewrite (lo_named S v n Hv).
@@ -335,6 +456,7 @@ Section ValueSound.
     destruct td as [d p name dirs kw|d p name impls dirs fs' kw|d p name impls dirs fs' kw|d p name dirs mem' kw
                    |d p name dirs vals kw|d p name dirs fields kw]; cbn zeta in H; try discriminate.
     - (* scalar *)
+      destruct (is_builtin_scalar (iname name)) eqn:Eb; [|apply custom_scalar_ok, Eb].
       destruct (scalar_accepts (iname name) v) eqn:Ea; [|discriminate].
       apply scalar_agree; assumption.
     - (* enum *)
@@ -352,49 +474,44 @@ Section ValueSound.
       cbn zeta in F1, F2, F3. cbn [io_errs io_res io_seen app andb Nat.add] in F1, F2, F3.
       apply app_nil_inv in H as [He Hr]. rewrite F1 in He. rewrite F2, F3 in Hr.
       destruct (forallb (ef_ok fs) fields) eqn:Eok; [|discriminate].
-      destruct (Nat.ltb (length (filter (fun ef => mem (iname (iv_name ef)) (keys fs)) fields)) (length fs)) eqn:Elt;
-        [discriminate|].
+      destruct (Nat.ltb (sumc (map (fun ef => iname (iv_name ef)) fields) (keys fs)) (length fs)) eqn:Elt; [discriminate|].
       apply Nat.ltb_ge in Elt.
       pose proof (wf_input S _ _ _ _ _ _ _ Hwf Eg) as Hnd.
-      assert (Hcount : (forall k, In k (keys fs) -> In k (map (fun d => iname (iv_name d)) fields)) /\ NoDup (keys fs)).
-      { apply count_incl; [exact Hnd|]. rewrite filter_map_length. unfold keys at 1. rewrite map_length. exact Elt. }
-      destruct Hcount as [Hdef Hkeys].
-      fold (keys fs). rewrite !andb_true_iff. split; [split|].
+      assert (Hdef : forall k, In k (keys fs) -> In k (map (fun d0 => iname (iv_name d0)) fields)).
+      { apply (sumc_all_defined _ _ Hnd). unfold keys at 1. rewrite map_length. exact Elt. }
+      fold (keys fs). rewrite andb_true_iff. split.
       + apply lit_fields_forall. intros k v Hin.
         assert (Hk : In (iname k) (keys fs)) by (unfold keys; apply in_map_iff; exists (k, v); auto).
         destruct (find_by_name fields (iname k) (Hdef _ Hk)) as [dd [Hf [Hdin Hdn]]].
         exists dd. split; [exact Hf|].
-        pose proof (flat_map_nil _ _ He dd Hdin) as Hee. unfold ef_errs in Hee.
-        destruct (find_val (fun fv => check_value S vars fv (iv_type dd)) (iname (iv_name dd)) fs) as [es|] eqn:Efv.
-        * apply find_val_some_first in Efv as [k' [v' [Hfind ->]]].
-          apply find_some in Hfind as [Hin' Hname]. cbn in Hname. apply str_eqb_eq in Hname.
-          assert (Esame : (k', v') = (k, v)).
-          { apply (NoDup_map_inj (fun kv => iname (fst kv)) fs); auto. cbn. congruence. }
-          injection Esame as -> ->.
-          rewrite Forall_forall in IH. apply (IH (k, v) Hin). exact Hee.
-        * apply find_val_none in Efv. rewrite Hdn in Efv. apply mem_In in Hk. congruence.
-      + apply nodup_str_NoDup, Hkeys.
+        pose proof (flat_map_nil _ _ He dd Hdin) as Hee. cbn beta in Hee.
+        assert (Hcv : check_value S vars v (loc_type dd v) = []).
+        { apply (concat_nil_inv _ Hee). unfold ef_vals. apply filter_vals_In. exists k, v. auto. }
+        destruct (is_var v) eqn:Evar.
+        * destruct v; try discriminate Evar. apply lo_var.
+        * rewrite (loc_type_nonvar dd v Evar) in Hcv. rewrite Forall_forall in IH. apply (IH (k, v) Hin). exact Hcv.
       + apply forallb_forall. intros dd Hdin. rewrite forallb_forall in Eok. specialize (Eok dd Hdin).
         unfold ef_ok in Eok. rewrite orb_comm. exact Eok.
   Qed.
 
-  (** variable uses of an object literal *)
+  (** variable uses of an object / list literal, unfolded *)
   Definition input_defs (t : ty) : list inputvaldef :=
     match unwrap_lists t with
     | TNamed n => match sp_type S (iname n) with Some (TDInput _ _ _ _ fields _) => fields | _ => [] end
     | _ => []
     end.
-  Definition obj_uses (defs : list inputvaldef) (fs : list (ident * value)) : list var_use :=
+  Definition obj_uses (defs : list inputvaldef) (custom : bool) (fs : list (ident * value)) : list var_use :=
     flat_map (fun kv => match find (fun d => str_eqb (iname (iv_name d)) (iname (fst kv))) defs with
                         | Some d => var_uses false S (snd kv) (Some (iv_type d))
                                       (match iv_default d with Some _ => true | None => false end)
-                        | None => []
+                        | None => if custom then var_uses true S (snd kv) None false else []
                         end) fs.
 
-  Lemma obj_uses_unfold p fs t ld : var_uses false S (VObject p fs) (Some t) ld = obj_uses (input_defs t) fs.
+  Lemma obj_uses_unfold p fs t ld :
+    var_uses false S (VObject p fs) (Some t) ld = obj_uses (input_defs t) (custom_scalar S (unwrap_lists t)) fs.
   Proof.
-    cbn [var_uses]. fold (input_defs t). generalize (input_defs t) as defs. intros defs.
-    unfold obj_uses. induction fs as [|[k fv] r IH]; [reflexivity|].
+    cbn [var_uses orb]. fold (input_defs t). generalize (input_defs t) as defs, (custom_scalar S (unwrap_lists t)) as c.
+    intros defs c. unfold obj_uses. induction fs as [|[k fv] r IH]; [reflexivity|].
     cbn [flat_map fst snd]. rewrite <- IH. reflexivity.
   Qed.
 
@@ -407,55 +524,55 @@ Section ValueSound.
     var_uses false S (VList p vs) (Some t) ld =
     match strip_nonnull t with
     | TList _ i => flat_map (fun e => var_uses false S e (Some i) false) vs
-    | _ => []
+    | t' => if custom_scalar S t' then flat_map (fun e => var_uses true S e None false) vs else []
     end.
-  Proof. cbn [var_uses]. destruct (strip_nonnull t); reflexivity. Qed.
+  Proof. cbn [var_uses orb]. destruct (strip_nonnull t) as [n|i|q i]; try reflexivity; destruct (custom_scalar S _); reflexivity. Qed.
+
+  Lemma deep_list_unfold p vs : var_uses true S (VList p vs) None false = flat_map (fun e => var_uses true S e None false) vs.
+  Proof. reflexivity. Qed.
+  Lemma deep_obj_unfold p fs : var_uses true S (VObject p fs) None false = flat_map (fun kv => var_uses true S (snd kv) None false) fs.
+  Proof.
+    cbn [var_uses orb]. induction fs as [|[k fv] r IH]; [reflexivity|]. cbn [find flat_map snd]. rewrite <- IH. reflexivity.
+  Qed.
+
+  (** the custom-scalar arm: what the model reports for a custom scalar is check_variables_in_value *)
+  Lemma custom_named v n :
+    is_var v = false -> custom_scalar S (TNamed n) = true ->
+    check_named S vars (check_value S vars) v (TNamed n) n = check_variables_in_value vars v.
+  Proof.
+    intros Hv Hc. unfold custom_scalar in Hc. unfold check_named. rewrite get_type_sp.
+    destruct (sp_type S (iname n)) as [td|]; [|discriminate]. destruct td; try discriminate. cbn zeta.
+    rewrite builtin_agree. destruct (sp_builtin_scalar (iname name)); [discriminate | reflexivity].
+  Qed.
 
   Theorem check_value_sound : forall v t,
     check_value S vars v t = [] ->
     lit_ok S v t = true /\ forall ld, Forall use_ok (var_uses false S v (Some t) ld).
   Proof.
-    induction v as [n p|p l|p l|p l|p b|p|p l|p vs IHvs|p fs IHfs] using value_ind'; intros t H.
+    assert (Hatom : forall v, is_var v = false ->
+              (match v with VList _ _ | VObject _ _ => False | _ => True end) ->
+              forall t, check_value S vars v t = [] ->
+              lit_ok S v t = true /\ forall ld, Forall use_ok (var_uses false S v (Some t) ld)).
+    { intros v Hv Hshape t H. split; [|intros ld; destruct v; try contradiction; try discriminate Hv; constructor].
+      induction t as [n|i IHt|q i IHt].
+      - apply named_sound; [exact Hv | destruct v; try exact I; contradiction |]. rewrite <- cv_named; [exact H | exact Hv].
+      - rewrite cv_nonnull in H by exact Hv. rewrite lo_nonnull by exact Hv.
+        destruct v; try contradiction; try discriminate Hv; try (apply IHt, H). discriminate H.
+      - rewrite cv_list in H by exact Hv. rewrite lo_list by exact Hv.
+        destruct v; try contradiction; try discriminate Hv; try (apply IHt, H). reflexivity. }
+    induction v as [n p|p l|p l|p l|p b|p|p l|p vs IHvs|p fs IHfs] using value_ind'; intros t H;
+      try (apply Hatom; [reflexivity | exact I | exact H]).
     - (* variable *)
       rewrite cv_var in H. split; [apply lo_var|].
       intros ld. cbn [var_uses]. constructor; [|constructor]. apply check_variable_value_sound with (p := p). exact H.
-    - split; [|intros ld; constructor].
-      induction t as [n|i IHt|q i IHt].
-      + apply named_sound; [reflexivity | exact I |]. rewrite <- cv_named; [exact H | reflexivity].
-      + rewrite cv_nonnull in H by reflexivity. rewrite lo_nonnull by reflexivity. apply IHt, H.
-      + rewrite cv_list in H by reflexivity. rewrite lo_list by reflexivity. apply IHt, H.
-    - split; [|intros ld; constructor].
-      induction t as [n|i IHt|q i IHt].
-      + apply named_sound; [reflexivity | exact I |]. rewrite <- cv_named; [exact H | reflexivity].
-      + rewrite cv_nonnull in H by reflexivity. rewrite lo_nonnull by reflexivity. apply IHt, H.
-      + rewrite cv_list in H by reflexivity. rewrite lo_list by reflexivity. apply IHt, H.
-    - split; [|intros ld; constructor].
-      induction t as [n|i IHt|q i IHt].
-      + apply named_sound; [reflexivity | exact I |]. rewrite <- cv_named; [exact H | reflexivity].
-      + rewrite cv_nonnull in H by reflexivity. rewrite lo_nonnull by reflexivity. apply IHt, H.
-      + rewrite cv_list in H by reflexivity. rewrite lo_list by reflexivity. apply IHt, H.
-    - split; [|intros ld; constructor].
-      induction t as [n|i IHt|q i IHt].
-      + apply named_sound; [reflexivity | exact I |]. rewrite <- cv_named; [exact H | reflexivity].
-      + rewrite cv_nonnull in H by reflexivity. rewrite lo_nonnull by reflexivity. apply IHt, H.
-      + rewrite cv_list in H by reflexivity. rewrite lo_list by reflexivity. apply IHt, H.
-    - (* null *)
-      split; [|intros ld; constructor].
-      destruct t as [n|i|q i].
-      + reflexivity.
-      + rewrite cv_nonnull in H by reflexivity. discriminate.
-      + reflexivity.
-    - split; [|intros ld; constructor].
-      induction t as [n|i IHt|q i IHt].
-      + apply named_sound; [reflexivity | exact I |]. rewrite <- cv_named; [exact H | reflexivity].
-      + rewrite cv_nonnull in H by reflexivity. rewrite lo_nonnull by reflexivity. apply IHt, H.
-      + rewrite cv_list in H by reflexivity. rewrite lo_list by reflexivity. apply IHt, H.
     - (* list *)
       rewrite Forall_forall in IHvs.
       induction t as [n|i IHt|q i IHt].
-      + split.
-        * apply named_sound; [reflexivity | exact I |]. rewrite <- cv_named; [exact H | reflexivity].
-        * intros ld. rewrite list_uses_unfold. cbn. constructor.
+      + rewrite cv_named in H by reflexivity. split.
+        * apply named_sound; [reflexivity | exact I | exact H].
+        * intros ld. rewrite list_uses_unfold. cbn [strip_nonnull].
+          destruct (custom_scalar S (TNamed n)) eqn:Ec; [|constructor].
+          rewrite (custom_named (VList p vs) n eq_refl Ec) in H. rewrite <- deep_list_unfold with (p := p). apply cviv_sound, H.
       + rewrite cv_nonnull in H by reflexivity. rewrite lo_nonnull by reflexivity.
         destruct (IHt H) as [Hl Hu]. split; [exact Hl|].
         intros ld. specialize (Hu ld). rewrite list_uses_unfold in *. exact Hu.
@@ -468,7 +585,14 @@ Section ValueSound.
       + rewrite cv_named in H by reflexivity. split.
         * apply named_sound; [reflexivity | | exact H].
           apply Forall_forall. intros kv Hin t' Ht'. rewrite Forall_forall in IHfs. apply (IHfs kv Hin t' Ht').
-        * intros ld. rewrite obj_uses_unfold. unfold input_defs. cbn [unwrap_lists].
+        * intros ld. rewrite obj_uses_unfold. cbn [unwrap_lists].
+          destruct (custom_scalar S (TNamed n)) eqn:Ec.
+          { rewrite (custom_named (VObject p fs) n eq_refl Ec) in H. apply cviv_sound in H. rewrite deep_obj_unfold in H.
+            unfold input_defs. cbn [unwrap_lists]. unfold custom_scalar in Ec.
+            destruct (sp_type S (iname n)) as [td|]; [|discriminate]. destruct td; try discriminate.
+            unfold obj_uses. apply Forall_flat_map. intros kv Hkv. cbn [find].
+            apply (Forall_flat_map_inv' _ _ _ H kv Hkv). }
+          unfold input_defs. cbn [unwrap_lists].
           unfold check_named in H. rewrite get_type_sp in H.
           destruct (sp_type S (iname n)) as [td|] eqn:Eg; [|discriminate H].
           destruct td as [d p' name dirs kw|d p' name impls dirs fs' kw|d p' name impls dirs fs' kw|d p' name dirs mem' kw
@@ -477,34 +601,25 @@ Section ValueSound.
           cbn zeta in H. unfold input_object_check in H. cbn zeta in H.
           pose proof (io_fold (check_value S vars) fs fields (mkIo [] true [] 0)) as [F1 [F2 F3]].
           cbn zeta in F1, F2, F3. cbn [io_errs io_res io_seen app andb Nat.add] in F1, F2, F3.
-          apply app_nil_inv in H as [He Hr]. rewrite F1 in He. rewrite F2, F3 in Hr.
-          destruct (forallb (ef_ok fs) fields) eqn:Eok; [|discriminate].
-          destruct (Nat.ltb (length (filter (fun ef => mem (iname (iv_name ef)) (keys fs)) fields)) (length fs)) eqn:Elt;
-            [discriminate|].
-          apply Nat.ltb_ge in Elt.
+          apply app_nil_inv in H as [He Hr]. rewrite F1 in He.
           rewrite <- get_type_sp in Eg.
-          pose proof (wf_input S _ _ _ _ _ _ _ Hwf Eg) as Hnd.
-          assert (Hcount : (forall k, In k (keys fs) -> In k (map (fun d => iname (iv_name d)) fields)) /\ NoDup (keys fs)).
-          { apply count_incl; [exact Hnd|]. rewrite filter_map_length. unfold keys at 1. rewrite map_length. exact Elt. }
-          destruct Hcount as [Hdef Hkeys].
+          destruct (wf_input_both S _ _ _ _ _ _ _ Hwf Eg) as [Hnd Hty].
           unfold obj_uses. apply Forall_flat_map. intros [k fv] Hin. cbn [fst snd].
           destruct (find (fun d0 => str_eqb (iname (iv_name d0)) (iname k)) fields) as [dd|] eqn:Ef; [|constructor].
           apply find_some in Ef as [Hdin Hdn]. apply str_eqb_eq in Hdn.
-          pose proof (flat_map_nil _ _ He dd Hdin) as Hee. unfold ef_errs in Hee.
-          assert (Hk : In (iname k) (keys fs)) by (unfold keys; apply in_map_iff; exists (k, fv); auto).
-          destruct (find_val (fun fv0 => check_value S vars fv0 (iv_type dd)) (iname (iv_name dd)) fs) as [es|] eqn:Efv.
-          -- apply find_val_some_first in Efv as [k' [v' [Hfind ->]]].
-             apply find_some in Hfind as [Hin' Hname]. cbn in Hname. apply str_eqb_eq in Hname.
-             assert (Esame : (k', v') = (k, fv)).
-             { apply (NoDup_map_inj (fun kv => iname (fst kv)) fs); auto. cbn. congruence. }
-             injection Esame as -> ->.
-             rewrite Forall_forall in IHfs. apply (IHfs (k, fv) Hin (iv_type dd) Hee).
-          -- apply find_val_none in Efv. rewrite Hdn in Efv. apply mem_In in Hk. congruence.
+          pose proof (flat_map_nil _ _ He dd Hdin) as Hee. cbn beta in Hee.
+          assert (Hcv : check_value S vars fv (loc_type dd fv) = []).
+          { apply (concat_nil_inv _ Hee). unfold ef_vals. apply filter_vals_In. exists k, fv. auto. }
+          destruct (is_var fv) eqn:Evar.
+          -- destruct fv as [vn vp| | | | | | | |]; try discriminate Evar. cbn [var_uses]. constructor; [|constructor].
+             rewrite cv_var in Hcv. apply (var_loc_sound dd vn vp (Hty dd Hdin) Hcv).
+          -- rewrite (loc_type_nonvar dd fv Evar) in Hcv.
+             rewrite Forall_forall in IHfs. apply (IHfs (k, fv) Hin (iv_type dd) Hcv).
       + rewrite cv_nonnull in H by reflexivity. rewrite lo_nonnull by reflexivity.
         destruct (IHt H) as [Hl Hu]. split; [exact Hl|].
-        intros ld. specialize (Hu ld). rewrite obj_uses_unfold in *. rewrite input_defs_nonnull. exact Hu.
+        intros ld. specialize (Hu ld). rewrite obj_uses_unfold in *. exact Hu.
       + rewrite cv_list in H by reflexivity. rewrite lo_list by reflexivity.
         destruct (IHt H) as [Hl Hu]. split; [exact Hl|].
-        intros ld. specialize (Hu ld). rewrite obj_uses_unfold in *. rewrite input_defs_list. exact Hu.
+        intros ld. specialize (Hu ld). rewrite obj_uses_unfold in *. exact Hu.
   Qed.
 End ValueSound.
